@@ -13,9 +13,23 @@ def pfirst(rx):
     return deco
 
 def mk(items): return Adt('Iter', None, [Seq(list(items)), 0, 'own'])
-def rest(E, it):
-    """remaining items of an iterator value (Iter adt, Range adt with concrete bounds, Rev/other eager adapters)"""
+SYM_RANGE_LIMIT = 3
+def rest(E, it, each=None):
+    """remaining items of an iterator value (Iter adt, Range adt, Rev/other eager adapters). `each`: a function applied to every item
+    as it is produced (adaptors that call a closure pass it, so that a range with symbolic bounds is followed element by element for
+    SYM_RANGE_LIMIT elements before the path is given up as not encoded)"""
     it = E.deref(it) if isinstance(it, Ref) else it
+    if each is not None:
+        if isinstance(it, Adt) and (it.ty == 'Range' or it.ty.endswith('::Range')) and all(z3.is_expr(x) for x in it.fields):
+            lo, hi = (z3.simplify(x) for x in it.fields)
+            if not (z3.is_int_value(lo) and z3.is_int_value(hi)):
+                out = []
+                for k in range(SYM_RANGE_LIMIT + 1):
+                    if not E.branch(lo + k < hi): return out
+                    if k == SYM_RANGE_LIMIT: raise Missing(f'loop over a range with a symbolic bound: more than {SYM_RANGE_LIMIT} iterations')
+                    out.append(each(lo + k))
+                return out
+        return [each(x) for x in rest(E, it)]
     if isinstance(it, Adt) and it.ty == 'Iter': return list(it.fields[0].fields[it.fields[1]:])
     if isinstance(it, Adt) and it.ty == 'PeekChars': return list(it.fields[0].fields[it.fields[1]:])          # a Peekable cursor (strmodels): the items not yet taken
     if isinstance(it, Adt) and (it.ty == 'Range' or it.ty.endswith('::Range')):
@@ -37,7 +51,7 @@ def rest(E, it):
 
 IT = r'<(?:.*) as Iterator>::'
 @pfirst(IT + r'map')
-def _(E, m, a, c0): return mk([E.call_closure(a[1], [x]) for x in rest(E, a[0])])
+def _(E, m, a, c0): return mk(rest(E, a[0], each=lambda x: E.call_closure(a[1], [x])))
 @pfirst(IT + r'(filter|take_while|skip_while)')
 def _(E, m, a, c0):
     out = []; op = m.group(1); skipping = True
